@@ -421,8 +421,36 @@ func genC13(t *rapid.T) c13Case {
 	n := rapid.IntRange(1, 8).Draw(t, "nactions")
 	c := c13Case{}
 	c.Actions = append(c.Actions, genC13Action(t, 0, true))
+	var sessionBuilders []string
+	for _, name := range c13Names {
+		if sp := c13Specs[name]; sp.amf && sp.ran && (sp.pdus || sp.pdu) {
+			sessionBuilders = append(sessionBuilders, name)
+		}
+	}
 	for i := 1; i <= n; i++ {
-		c.Actions = append(c.Actions, genC13Action(t, i, false))
+		a := genC13Action(t, i, false)
+		c.Actions = append(c.Actions, a)
+		// the messages of ONE UE's procedures follow each other: a further message for the same UE (same AMF/RAN UE NGAP
+		// ids) that names other PDU sessions, or none - a message carries the arguments of ITS call, whatever an earlier
+		// message for that UE carried
+		if sp := c13Specs[a.Builder]; sp.amf && sp.ran && (sp.pdus || sp.pdu) && len(sessionBuilders) > 0 && rapid.IntRange(0, 1).Draw(t, fmt.Sprintf("a%d_followup", i)) == 1 {
+			f := genC13Action(t, 100+i, false)
+			f.Builder = rapid.SampledFrom(sessionBuilders).Draw(t, fmt.Sprintf("a%d_followup_builder", i))
+			f.Amf, f.Ran = a.Amf, a.Ran
+			if rapid.Bool().Draw(t, fmt.Sprintf("a%d_followup_nolist", i)) {
+				f.PduIDs = nil
+			}
+			c.Actions = append(c.Actions, f)
+		}
+	}
+	if rapid.IntRange(0, 5).Draw(t, "last_bad_plmn") == 2 {
+		// as the last action (the builder stores what it is given, so nothing sensible can follow): an NG Setup whose PLMN
+		// identity does not have the three octets PLMNIdentity ::= OCTET STRING (SIZE(3)) has - refused, not cut or padded
+		a := genC13Action(t, 200, true)
+		a.Builder = rapid.SampledFrom([]string{"GetNGSetupRequest", "BuildNGSetupRequest"}).Draw(t, "bad_plmn_builder")
+		l := rapid.SampledFrom([]int{0, 1, 2, 4, 6}).Draw(t, "bad_plmn_len")
+		a.PLMN = rapid.SliceOfN(rapid.Byte(), l, l).Draw(t, "bad_plmn")
+		c.Actions = append(c.Actions, a)
 	}
 	return c
 }
@@ -444,6 +472,9 @@ func c13InRange(a c13Action, s c13Spec) bool {
 				return false
 			}
 		}
+	}
+	if (a.Builder == "GetNGSetupRequest" || a.Builder == "BuildNGSetupRequest") && len(a.PLMN) != 3 {
+		return false
 	}
 	if a.Builder == "GetNGSetupRequest" {
 		// RANNodeName / AMFName are PrintableString (SIZE(1..150, ...)): extensible, so a longer
@@ -608,8 +639,8 @@ func c13Check(a c13Action, s c13Spec, announced []byte) (key string, err error) 
 	}
 	if !in {
 		if berr == nil {
-			return "accepted-out-of-range:" + a.Builder, fmt.Errorf("%s accepted out-of-range arguments (amf=%d ran=%d pdu=%d pdus=%v gnbbits=%d namelen=%d) and produced %d octets",
-				a.Builder, a.Amf, a.Ran, a.PduID, a.PduIDs, a.GnbBits, len(a.Name), len(b))
+			return "accepted-out-of-range:" + a.Builder, fmt.Errorf("%s accepted out-of-range arguments (amf=%d ran=%d pdu=%d pdus=%v gnbbits=%d namelen=%d plmn=%x) and produced %d octets",
+				a.Builder, a.Amf, a.Ran, a.PduID, a.PduIDs, a.GnbBits, len(a.Name), a.PLMN, len(b))
 		}
 		return "", nil
 	}
